@@ -1,6 +1,6 @@
 From SV Require Import Base.ListX Store.Raw Store.RawRefine Store.CleanProps Store.Masked Store.StoreInv Store.Bag Store.Ledger
   Store.ClearLedger Store.DeadHandle
-  World.Env World.WorldSpec World.World World.Simulation World.NoStuck.
+  World.Env World.SopLedger World.WorldSpec World.World World.Simulation World.NoStuck.
 From Coq Require Import Sorting.Permutation.
 From SV Require Import Props.C08.
 Check (C08_never_exposes_an_unwritten_or_moved_out_slot : forall os,
@@ -78,3 +78,6 @@ Check (C08_get_mut_or_default_conserves : forall ms m av e c, LInvS ms m ->
   let '(ms', o, c') := st_get_mut_or_default ms av e c in
   exists m', LInvS ms' m' /\
     conserves m m' (if present ms av e then [] else [fst (tnorm ms (if ms_unit ms then unit_tok else default_tok))]) [] c c').
+Check (C08_every_storage_operation_conserves : forall ms m av ent so c, LInvS ms m ->
+  let '(ms', out, c') := ms_sop ms av ent so c in
+  exists m', LInvS ms' m' /\ conserves m m' (sop_ins ms av ent so) (sop_rets so out) c c').
